@@ -41,13 +41,17 @@ inductive PrimCall where
 
 abbrev Oracle := PrimCall → Except Exc String
 
-/-- `FeedbackFieldWrapper.__format__` (and the conversion path of `str.format`). -/
+/-- Which primitive call `FeedbackFieldWrapper.__format__` (or the conversion path of `str.format`)
+    makes for one replacement field. -/
+def primOf (F : String) (avail : List String) (v : FVal) (accessor conv spec : String) : PrimCall :=
+  if conv ≠ "" then .conv conv v accessor spec
+  else match dispatch avail spec with
+    | some (n, rest) => .fmt F n v accessor rest
+    | none => .plain v accessor spec
+
 def renderField (O : Oracle) (F : String) (avail : List String) (v : FVal) (accessor conv spec : String) :
     Except Exc String :=
-  if conv ≠ "" then O (.conv conv v accessor spec)
-  else match dispatch avail spec with
-    | some (n, rest) => O (.fmt F n v accessor rest)
-    | none => O (.plain v accessor spec)
+  O (primOf F avail v accessor conv spec)
 
 /-- `template.format(**wrap_fields(formatter, fields))`, left to right; a missing name is a KeyError. -/
 def render (O : Oracle) (F : String) (avail : List String) (fields : List (String × FVal)) :
